@@ -36,12 +36,16 @@ macro_rules! c15 {
         pub fn $name() {
             let v: $t = vk::any();
             let code: u8 = vk::any();
-            let unsigned: bool = vk::any();
+            // every combination of the 16 column flags: the client decides signedness from UNSIGNED_FLAG alone,
+            // whatever else is set (ZEROFILL, NOT_NULL, ...)
+            let bits: u16 = vk::any();
+            let flags = ColumnFlags::from_bits_truncate(bits);
+            let unsigned = flags.contains(ColumnFlags::UNSIGNED_FLAG);
             let ct = match ColumnType::try_from(code) {
                 Ok(c) => c,
                 Err(_) => return,
             };
-            let c = col(ct, unsigned);
+            let c = col_flags(ct, flags);
             let mut b = Buf::<16>::new();
             let r = noerr(v.to_mysql_bin(&mut b, &c));
             if let Some((lo, hi, w)) = int_range(ct, unsigned) {
@@ -90,12 +94,16 @@ macro_rules! c15_generic {
         pub fn $name() {
             let n: $t = vk::any();
             let code: u8 = vk::any();
-            let unsigned: bool = vk::any();
+            // every combination of the 16 column flags: the client decides signedness from UNSIGNED_FLAG alone,
+            // whatever else is set (ZEROFILL, NOT_NULL, ...)
+            let bits: u16 = vk::any();
+            let flags = ColumnFlags::from_bits_truncate(bits);
+            let unsigned = flags.contains(ColumnFlags::UNSIGNED_FLAG);
             let ct = match ColumnType::try_from(code) {
                 Ok(c) => c,
                 Err(_) => return,
             };
-            let c = col(ct, unsigned);
+            let c = col_flags(ct, flags);
             let mut b = Buf::<16>::new();
             let v = crate::myc::value::Value::$variant(n);
             let r = noerr(v.to_mysql_bin(&mut b, &c));
